@@ -27,6 +27,7 @@ func runC02(r *Run) {
 	const P = "C02"
 	r.checkChrono(P, "sortOperations@processor", r.fn(P, pkgProcessor, "sortOperations"))
 	r.checkChrono(P, "sortOperations@metadata", r.fn(P, pkgMetadata, "sortOperations"))
+	r.checkMetadataSorted(P)
 	r.checkCreateOrder(P)
 	r.checkSortedBeforeGroup(P)
 	// the update filter "anchored after the last full operation" decides which
@@ -472,4 +473,55 @@ func (r *Run) checkAdditionalMerge(P string) {
 		}
 	}
 	r.R.Check(n > 0 && len(bad) == 0, id, rule, core.FuncName(f), r.where(f), why, fmt.Sprintf("%d iteration paths, %d skipping, all under the published-duplicate test", n, nSkip), strings.Join(dedupe(bad), "; "))
+}
+
+// checkMetadataSorted: the operation lists of the document metadata are built from the chronologically sorted input —
+// the sort is applied to the very slice that is then walked, before the walk.
+func (r *Run) checkMetadataSorted(P string) {
+	for _, name := range []string{"getPublishedOperations", "getUnpublishedOperations"} {
+		f := r.fn(P, pkgMetadata, name)
+		if f == nil {
+			continue
+		}
+		id := P + ".metadata.sorted." + name
+		rule := "E8 Before: every read of an element of the input list is preceded by sortOperations on that list"
+		why := "the published / unpublished operation lists of the resolution metadata are part of the result and must not depend on the order the store returned the operations in"
+		if len(f.Params) == 0 {
+			r.R.Unk(id, rule, core.FuncName(f), r.where(f), why, "no list parameter")
+			continue
+		}
+		// whatever slice of anchored operations is walked (the parameter or a copy of it) was sorted first
+		opsT := f.Params[0].Type().String()
+		sorts := r.callsIn(f, "sortOperations")
+		n, bad := 0, 0
+		for _, b := range f.Blocks {
+			for i, ins := range b.Instrs {
+				ia, ok := ins.(*ssa.IndexAddr)
+				if !ok || ia.X.Type().String() != opsT {
+					continue
+				}
+				n++
+				dominated := false
+				for _, s := range sorts {
+					if len(s.Common().Args) != 1 || s.Common().Args[0] != ia.X {
+						continue
+					}
+					if s.Block() == b {
+						for _, prev := range b.Instrs[:i] {
+							if prev == ssa.Instruction(s) {
+								dominated = true
+							}
+						}
+					} else if s.Block().Dominates(b) {
+						dominated = true
+					}
+				}
+				if !dominated {
+					bad++
+				}
+			}
+		}
+		r.R.Check(len(sorts) >= 1 && n >= 1 && bad == 0, id, rule, core.FuncName(f), r.where(f), why,
+			fmt.Sprintf("%d element read(s), all after the sort", n), fmt.Sprintf("%d sort call(s) on the parameter, %d element read(s), %d not preceded by the sort", len(sorts), n, bad))
+	}
 }
